@@ -403,6 +403,11 @@ func runC07Contract(s *kernel.Sim) {
 		if i == dropAt || op == 12 || op == 13 {
 			hot, hotUntil = w, i+6
 		}
+		if eventsFlowAt >= 0 && hot > 0 && s.Choose("whileheld", 4) == 0 {
+			// while events are on their way: the wallet takes its deposit out on chain (the event that says so is
+			// among those that have not arrived) - and, being the wallet in the picture, asks the pool for it too
+			op, w = 10, hot
+		}
 		if resubOpensAt >= 0 && s.Choose("whiledown", 2) == 1 {
 			// while the pool has no subscription: things that change on chain, and requests that look at them
 			op = []int{10, 14, 15, 15}[s.Choose("whiledown.op", 4)]
